@@ -14,14 +14,14 @@ pub static DEF: CheckDef = CheckDef {
     id: "C01",
     run: run_c01,
     replay: replay_c01,
-    rule: "layer 1: every register-only encoding, translated once and called for all (A, operand, F) / all 2^16 / all SP x e8 values; layer 2: every memory-accessing encoding (loads/stores via BC/DE/HL/HL+-, LDH, LD (nn), ALU (HL), INC/DEC (HL), LD (HL),n, CB (HL), PUSH/POP, CALL/RET/RETI/RST, LD (nn),SP) with the pointer register swept over all 65536 values (quick: every region boundary +-2 plus every 5th address); layer 3: proptest-generated straight-line blocks of 1..32 instructions closed by every kind of terminator, placed in bank 0, in a switchable bank, ending on the last byte of a region or running through 0x4000, from initial cycles 0 or 5; layer 4: every encoding (with three immediate values) behind context prefixes that bring the block's cycle count to every value around the nibble carries 16 and 32 - from pending counts 0 and 5, ending in a 1-, 2- or 3-cycle instruction - so that emitted code which depends on host flags or scratch registers left by the preceding instruction shows. Each case runs interpreter::run_code_block on one core and translate+call on an identical core; compared: AF BC DE HL SP PC as full 32-bit fields, status class, ordered bus-write trace, all RAM/I-O/bank/DMA/serial state; every 8th translated call is entered through a shim that plants sentinels in the host's callee-saved registers and checks them and the stack pointer on return. Non-trivial = the block changes something besides PC; distinct by hash(block bytes, placement, initial registers) for generated cases, by construction for enumerated tuples.",
+    rule: "layer 1: every register-only encoding, translated once and called for all (A, operand, F) / all 2^16 / all SP x e8 values; layer 2: every memory-accessing encoding (loads/stores via BC/DE/HL/HL+-, LDH, LD (nn), ALU (HL), INC/DEC (HL), LD (HL),n, CB (HL), PUSH/POP, CALL/RET/RETI/RST, LD (nn),SP) with the pointer register swept over all 65536 values (quick: every region boundary +-2 plus every 5th address); layer 3: proptest-generated straight-line blocks of 1..32 instructions closed by every kind of terminator, placed in bank 0, in a switchable bank, ending on the last byte of a region or running through 0x4000, from initial cycles 0 or 5; layer 4: every encoding (with three immediate values) behind context prefixes that bring the block's cycle count to every value around the nibble carries 16 and 32 - from pending counts 0 and 5, ending in a 1-, 2- or 3-cycle instruction - so that emitted code which depends on host flags or scratch registers left by the preceding instruction shows. layer 5: through the emulator's own dispatch (C03's restart probe): the translation area filled to every level from 4.5 MiB up, then a whole bank of DAA - the longest translation there is - and bank 1 at the address whose bank-2 block made the area restart, compared with the interpreter build on registers and serial bytes. Each case of layers 1-4 runs interpreter::run_code_block on one core and translate+call on an identical core; compared: AF BC DE HL SP PC as full 32-bit fields, status class, ordered bus-write trace, all RAM/I-O/bank/DMA/serial state; every 8th translated call is entered through a shim that plants sentinels in the host's callee-saved registers and checks them and the stack pointer on return. Non-trivial = the block changes something besides PC; distinct by hash(block bytes, placement, initial registers) for generated cases, by construction for enumerated tuples.",
     assumptions: &[
         "the interpreter is the reference (itself pinned to the SM83 by C05/C06)",
         "F low nibble 0 and register fields <= 0xFFFF on entry; no undefined opcode inside a block",
         "cartridge MBC1+32KiB RAM, 8 ROM banks; unrelated ROM bytes are HALT",
         "status 0x80 left in r14b by BIT/rotate templates is treated like 0 by Core::run_code_block and is not a divergence",
     ],
-    required_classes: &["l1-alu", "l2-ptr", "l3-blocks", "l4-context", "term-ret", "term-call", "term-jr", "term-halt", "place-bankN", "place-region-end", "ptr-io", "ptr-rom"],
+    required_classes: &["l1-alu", "l2-ptr", "l3-blocks", "l4-context", "term-ret", "term-call", "term-jr", "term-halt", "place-bankN", "place-region-end", "ptr-io", "ptr-rom", "restart-probe"],
     exhaustive: false,
 };
 
@@ -1175,13 +1175,52 @@ fn run_context_layer(rec: &mut Rec, scope: Scope) {
 fn run_c01(rec: &mut Rec) {
     run_items(rec, Scope::Effect);
     run_context_layer(rec, Scope::Effect);
+    // layer 5: through the emulator's own dispatch, across restarts of the translation area
+    {
+        let step = rec.ctx.tier.pick(0x40000usize, 0x8000);
+        let mut k = 0usize;
+        let mut target = 0x480000usize;
+        while target < 0x7f0000 {
+            if k % rec.ctx.nshards.max(1) == rec.ctx.shard && !rec.too_many() {
+                restart_probe_effect(rec, target);
+            }
+            k += 1;
+            target += step;
+        }
+    }
     if rec.ctx.shard == 0 {
         let cases = rec.ctx.tier.pick(40_000u32, 3_000_000);
         run_generated_blocks(rec, Scope::Effect, cases);
     }
 }
 
+/// C03's restart probe judged on the architectural effect of the two blocks (registers,
+/// serial bytes) through the emulator's own dispatch
+fn restart_probe_effect(rec: &mut Rec, target: usize) {
+    let case = json!({"kind": "restart-probe-effect", "target": target});
+    rec.current(&case.to_string());
+    rec.eval(1);
+    rec.class("restart-probe", 1);
+    rec.nontrivial(fnv(case.to_string().as_bytes()));
+    if let Ok(p) = crate::checks::c03::restart_probe(target) {
+        let mut pairs = vec![("the whole bank of DAA under bank 1", 0x4000u16, &p.largest)];
+        if let Some(a) = &p.after_restart {
+            pairs.push(("bank 1 at the address whose bank-2 block made the translation area restart", p.last_filler_pc, a));
+        }
+        for (what, pc, (oj, oi)) in pairs {
+            if oj.regs != oi.regs || oj.serial != oi.serial {
+                rec.violation("restart-probe-effect", case.clone(), format!("{} (block at {:#06x}, {} bytes of the translation area in use): translated {:?} / sent {:02x?}, interpreter {:?} / sent {:02x?}", what, pc, p.level, oj.regs, oj.serial, oi.regs, oi.serial));
+                return;
+            }
+        }
+    }
+}
+
 fn replay_c01(case: &Value, rec: &mut Rec) {
+    if case.get("kind").and_then(|k| k.as_str()) == Some("restart-probe-effect") {
+        restart_probe_effect(rec, (case.get("target").and_then(|v| v.as_u64()).unwrap_or(0x500000) as usize).min(0x7f0000));
+        return;
+    }
     replay_scope(case, rec, Scope::Effect)
 }
 
